@@ -5,6 +5,7 @@ import Complgen.Cert.Search
 import Complgen.Cert.Canon
 import Complgen.Cert.Det
 import Complgen.Spec.Den
+import Complgen.Spec.Warn
 import Complgen.Gen.Chains
 import Complgen.Gen.Tables
 import Complgen.Gen.Diag
@@ -133,6 +134,12 @@ def handle (line : String) : String :=
       | .expr e => s!"expr {e.text.trimAsciiEnd.toString}"
       | .anyWord => "anyword"
     | _, _, _ => "bad-op"
+  | "warnspec" :: sh :: rest =>
+    match shellOf sh, readGrammar (" ".intercalate rest) with
+    | some sh, some g =>
+      let f := fun (l : List String) => " ".intercalate (sortStrings (l.map Hex.encode))
+      s!"ok {f (Spec.undefinedNames sh g)} | {f (Spec.unusedNames g)} | {f (Spec.unusedSpecNames sh g)}"
+    | _, _ => "bad-op"
   | ["labels"] =>
     "ok " ++ " ".intercalate (Gen.diagLabels.map fun (k, v) => s!"{Hex.encode k}:{Hex.encode v}")
   | ["canon", a] =>
